@@ -6,6 +6,7 @@ mod c07;
 mod c08;
 mod c09;
 mod c10;
+mod c13l;
 mod c14;
 mod c15;
 mod hr;
@@ -99,6 +100,7 @@ fn main() {
         "c08_shapes" => c08::shapes(&args),
         "c09_faults" => c09::run(&args),
         "c10_static" => c10::run(&args),
+        "c13_layouts" => c13l::run(&args),
         "c14_attrib" => c14::run(&args),
         "c15_lifecycle" => c15::lifecycle(&args),
         s => {
